@@ -671,12 +671,23 @@ inductive NextArm where
             raise ExtractError("parse_rootdefinition_enum: no allowed scalar types")
         enum_cast = bool(re.search(r"ir::TypeLayer::Enum\(id\) => \{ let underlying_type = context\.module\.enum_registry\.get_underlying_type_id\(id\); "
                                    r"let cast = ImplicitConversion::find\( expr_ir\.1, underlying_type\.to_rvalue\(\), &mut context\.module, \) \.unwrap\(\); "
-                                   r"expr_ir\.0 = cast\.apply\(expr_ir\.0, &mut context\.module\) \}", disp))
+                                   r"expr_ir\.0 = cast\.apply\(expr_ir\.0, &mut context\.module\); value_ty = underlying_type; \}", disp))
         if not re.search(r"_ => \{ return Err\(TyperError::EnumValueMustBeInteger\(expr\.location\)\); \}", disp):
             raise ExtractError("parse_rootdefinition_enum: other types are not rejected with EnumValueMustBeInteger")
         if not re.search(r"let evaluated = match evaluate_constexpr\(&expr_ir\.0, &mut context\.module\) \{ Ok\(value\) => value, "
                          r"Err\(_\) => return Err\(TyperError::ExpressionIsNotConstantExpression\(expr\.location\)\), \};", ebn):
             raise ExtractError("parse_rootdefinition_enum: the initialiser is not evaluate_constexpr / ExpressionIsNotConstantExpression")
+        # the type recorded with the value (what a later reference `B = A` is typed as): the type of the evaluated constant —
+        # the initialiser's type without modifiers, the underlying type for an enum-typed initialiser; an implicit successor
+        # inherits it, except after a `bool` value (fresh `int`)
+        if not re.search(r"let unmodified_id = context\.module\.type_registry\.remove_modifier\(expr_ir\.1\.0\); let mut value_ty = unmodified_id; "
+                         r"match context\.module\.type_registry\.get_type_layer\(unmodified_id\)", ebn) \
+                or len(re.findall(r"\bvalue_ty\b", ebn)) != 3 or not re.search(r"\(evaluated, value_ty\) \} else \{", ebn) \
+                or not re.search(r"let next_ty = if let ir::Constant::Bool\(_\) = last_value\.0 \{ context \.module \.type_registry "
+                                 r"\.register_type\(ir::TypeLayer::Scalar\(ir::ScalarType::Int32\)\) \} else \{ last_value\.1 \}; \(next_value, next_ty\)", ebn):
+            raise ExtractError("parse_rootdefinition_enum: the type recorded with an enumerator is not the type of the evaluated constant")
+        out.append("/-- the type recorded with an enumerator is the type of its evaluated constant (no modifiers, the underlying type for an "
+                   "enum-typed initialiser): a later reference is the literal of that type -/\ndef enumRecordsValueType : Bool := true\n")
         out.append("/-- static types an enumerator initialiser may have -/\ndef enumAllowed : List Scalar := " + T.lean_list(f".{k}" for k in allowed) + "\n")
         out.append(f"/-- an enum-typed initialiser is first converted to the underlying type of *its* enum -/\ndef enumCastsEnumTyped : Bool := {str(enum_cast).lower()}\n")
         m = re.search(r"None => \( ir::Constant::(\w+)\((-?\d+)\),", ebn)
